@@ -33,6 +33,9 @@ def b2s(b):
     return "".join(out)
 
 
+CURRENT_REPORT = None
+
+
 class Report:
     def __init__(self, prop, tier, seed, level="exploration"):
         self.prop, self.tier, self.seed, self.level = prop, tier, seed, level
@@ -44,6 +47,8 @@ class Report:
         self.assumptions = []
         self.distinct = set()
         self.distinct_count = 0
+        global CURRENT_REPORT
+        CURRENT_REPORT = self          # the whole-run watchdog reports violations already merged when it fires (./check)
 
     # -- violations -------------------------------------------------------------------------
     def violation(self, key, witness, detail=None, count=1):
